@@ -12,6 +12,11 @@ CLAIMED = {
    "Every schedule of the burst scenarios (didOpen + 1..4 didChange on one document, 2+2/2+3 on two documents, with and without workspace root / included file) within preemption bound 2 (quick; 3 thorough) is executed on the real server; bound 0 alone already contains every order in which the background analyses can publish. After each execution the last PublishDiagnostics per document is compared with a fresh server's diagnostics for the final text.",
    "Scheduling points are the sync.Map/RWMutex/Mutex operations, goroutine start/end and client calls of the instrumented tree (import of sync renamed to a shim, go statements routed through the scheduler); message handling is serial as in main.go. Bursts longer than 5 messages and schedules needing more preemptions than the bound are not covered.",
    "DESIGN.md §3.3, §5 C13"),
+ "C14": ("model_checking",
+   "stateless preemption-bounded DFS over all schedules of the real server under a controlled scheduler, built with -race and race-invisible hand-offs so that every explored schedule is also a race-detector run",
+   "Five scenario programs (open/complete/change/complete; workspace with included file; initialized + two configuration changes; two documents with semantic tokens; open/close/reopen), each a serial stream of 8-11 notifications and requests with 1-3 background goroutines, are executed under every schedule within preemption bound 1-2 (quick) / 2-3 (thorough). Per schedule: no panic, no deadlock, no race report, and every response is one a sequential execution can give in which each background computation is either finished or still pending but no superseded result is used; after a drain only the sequential response is accepted.",
+   "The scheduler's hand-off is a spin on a plain word inside //go:norace functions (GOMAXPROCS=1), so it adds no happens-before edge; shims wrap the real sync primitives. Not covered: weak-memory effects outside Go's race model, goroutines inside jsonrpc2, schedules beyond the bound, scenarios other than the five.",
+   "DESIGN.md §3.3, §5 C14"),
 }
 
 NOT_YET = "check not built yet in this session (work in progress; see DESIGN.md §5 for the plan)"
